@@ -6,6 +6,7 @@
 
 use std::io::{Read, Seek, SeekFrom};
 
+use crate::common::remaining_bytes;
 use crate::error::{M2Error, Result};
 use crate::io_ext::ReadExt;
 
@@ -51,6 +52,19 @@ impl<R: Read + Seek> ChunkReader<R> {
     /// The reader should be positioned at the start of chunk data (after header)
     pub fn new(mut reader: R, header: ChunkHeader) -> Result<Self> {
         let chunk_start = reader.stream_position()?;
+
+        // Chunk parsers size their buffers from the chunk size, so a header that claims
+        // more data than the stream holds is rejected here
+        let available = remaining_bytes(&mut reader)?;
+        if header.size as u64 > available {
+            return Err(M2Error::ParseError(format!(
+                "Chunk {} claims {} bytes but only {} bytes remain",
+                header.magic_str(),
+                header.size,
+                available
+            )));
+        }
+
         Ok(ChunkReader {
             inner: reader,
             chunk_start,
